@@ -90,7 +90,7 @@ func collectNames(steps []M) (topics, denoms, tokens, dids []string) {
 						set["n"][s] = true
 					case k == "id" && strings.HasPrefix(s, "i"):
 						set["i"][s] = true
-					case (k == "did" || k == "id" || k == "vmDid") && strings.HasPrefix(s, "d") && len(s) == 2:
+					case (k == "did" || k == "id" || k == "vmDid") && strings.HasPrefix(s, "d") && len(s) == 2 && didDict[s] != "":
 						set["d"][s] = true
 					}
 				}
